@@ -269,7 +269,7 @@ def run_shard(spec, ctx):
                   "lines-" + ("<10" if len(lines) < 10 else "<30" if len(lines) < 30 else "30+")]
         if label.startswith("inconclusive"):
             ctx.exclude(label)
-        ctx.case(text, len(lines) >= 3 and reached, labels, sample={"source": m["source"], "text": text[:400], "class": label} if ctx.evaluations % 150 == 13 else None,
+        ctx.case(text, len(lines) >= 3 and reached, labels, sample={"source": m["source"], "text": text[:400], "class": label} if ctx.evaluations % 150 == 12 or not ctx.samples else None,
                  evaluations=2)
         if res:
             return (res[0], res[1] + "\n--- text\n" + text[:1500], case)
